@@ -25,6 +25,12 @@ func vfC05Build(o *vfOutbox, bare bool, nobj int) {
 		}
 		o.actAddr = o.addr(o.tree, pat[0]|pat[1], "note", nil)
 		o.typ = "Note"
+		if vfChoose("attributed", 2) == 1 {
+			// a bare object attributed to somebody who may or may not be the outbox owner
+			s := vfIRI("obj.attributedTo")
+			o.tree["attributedTo"] = s
+			o.objAttr = [][]string{{s}}
+		}
 		return
 	}
 	o.isAct = true
@@ -286,7 +292,17 @@ func vfC05CreateX(bare bool, check int, cross bool) {
 	}
 	if bare {
 		vfCover("wrapped")
-		vfAssert(vfSeqEq(vfJSONIDs(act["actor"]), []string{me}), "wrapping-create-actor-is-not-the-outbox-owner")
+		var battr []string
+		for _, a := range o.objAttr {
+			battr = append(battr, a...)
+		}
+		vfAssert(vfStrIn(me, vfJSONIDs(act["actor"])), "wrapping-create-actor-is-not-the-outbox-owner")
+		vfAssert(vfSetEq(vfJSONIDs(act["actor"]), vfUnion([]string{me}, battr)), "wrapping-create-actors-are-not-the-owner-plus-attributedTo")
+		for _, om := range objSnaps {
+			if om != nil {
+				vfAssert(vfSetEq(vfJSONIDs(om["attributedTo"]), vfUnion(battr, []string{me})), "wrapped-object-attributedTo-is-not-attributedTo-plus-owner")
+			}
+		}
 		for pi, pn := range vfAddrProps {
 			vfAssert(vfSetEq(vfJSONIDs(act[pn]), o.actAddr[pi]), "wrapping-create-did-not-copy-"+pn)
 		}
